@@ -29,12 +29,25 @@ def cvc5_fallback(smt2: str, secs: float) -> str:
     return out[0] if out and out[0] in ("sat", "unsat") else "unknown"
 
 
-def run_symbolic(h, case, float_mode=None, check_ms=None, max_paths=None):
+def run_symbolic(h, case, float_mode=None, check_ms=None, max_paths=None, stop_on_repro=False,
+                 budget_s=None, exclusions=None):
     """-> dict(obligations=[...], ends=[...], stats)"""
     t0 = time.time()
-    ex = Explorer(feas_ms=h.feas_ms, check_ms=check_ms or h.check_ms,
+    ex = Explorer(feas_ms=(300 if (float_mode or h.float_mode) == "fp" else h.feas_ms), check_ms=check_ms or h.check_ms,
                   float_mode=float_mode or h.float_mode, fallback=cvc5_fallback,
                   max_paths=max_paths or 200000)
+    if budget_s:
+        ex.budget_s = budget_s
+    if exclusions:
+        ex.exclusions = exclusions
+    if stop_on_repro:
+        def on_fail(ob):
+            fails, _sk, _err = replay_native(h, case, ob.inputs or {})
+            if ob.label in fails:
+                ob.detail += " [reproduced natively]"
+                return True
+            return False
+        ex.on_fail = on_fail
     subst = {}
     for k, v in (h.subst or {}).items():
         subst[k] = v
